@@ -489,3 +489,65 @@ func VerifC11Encoders() {
 	}
 	verifCover("C11/encoders/end")
 }
+
+// VerifC11EncodeBytes: the in-expression encoders on text that is not valid UTF-8 (what csv/tsv/properties input,
+// @base64d, @urid, strenv and load_str deliver): a stray 0xFF, truncated and overlong sequences, surrogates, at the
+// start, in the middle and at the END of the string (an optional ASCII byte on either side): a result or an
+// error, never a crash.
+func VerifC11EncodeBytes() {
+	mids := []string{"\xff", "a\xffb", "\xc3\xa9", "\xc3", "\xe2\x82", "\xe2\x82\xac", "'\xff", "\xff'", "\xf0\x9f", "\x80a",
+		"\xc3\xa9'\xfe x", "\xc0\xaf", "\xed\xa0\x80", "\xf4\x90\x80\x80", "\xef\xbf\xbd", "\xff\xfe\xfd", "caf\xe9", "\xe9"}
+	mid := mids[verifChoice("mid", len(mids))]
+	text := []string{"", "a"}[verifChoice("p", 2)] + mid + []string{"", "a", "'"}[verifChoice("q", 3)]
+	ops := []string{"@sh", "@uri", "[.] | @csv", "[.] | @tsv", "{\"k\": .} | to_props", "{\"k\": .} | to_xml", "@urid", "{(.): 1} | to_props", "{\"k\": .} | to_yaml | length"}
+	op := ops[verifChoice("op", len(ops))]
+	if _, err := vEval(vParse(op), vDoc(vStr(text))); err != nil {
+		verifCover("C11/encode-bytes/error")
+	}
+	verifCover("C11/encode-bytes/end")
+}
+
+// VerifC11SelfReferences: YAML lets an alias stand inside the node its anchor names (a: &a {<<: *a}). yq's operators
+// follow aliases and merge keys by plain recursion (traverse, explode, the JSON and properties encoders), so such a
+// document must not reach them as a cyclic graph: either the decoder rejects it or the graph it builds is acyclic
+// (bounded walk through Content and Alias), and then the usual operators run on it (result or error).
+func VerifC11SelfReferences() {
+	texts := []string{"a: &a {<<: *a}\n", "a: &a {b: *a}\n", "a: &a [*a]\n", "a: &a {k: {<<: *a}}\n", "&r {a: *r}\n", "a: &a {<<: [*a]}\n", "a: &a [[*a], 1]\n", "a: &a {? *a : 1}\n",
+		"a: &a 1\nb: *a\n", "a: &a {x: 1}\nb: {<<: *a}\n", "a: &a {x: &a 1, y: *a}\n"}
+	ti := verifChoice("text", len(texts))
+	dec := NewYamlDecoder(NewDefaultYamlPreferences())
+	if dec.Init(strings.NewReader(texts[ti])) != nil {
+		verifFail("C11/decoder-init")
+	}
+	doc, err := dec.Decode()
+	if err != nil {
+		verifCover("C11/self-reference/rejected")
+		return
+	}
+	var depth func(n *CandidateNode, d int) bool
+	depth = func(n *CandidateNode, d int) bool {
+		if n == nil {
+			return true
+		}
+		if d > 40 {
+			return false
+		}
+		if n.Kind == AliasNode && !depth(n.Alias, d+1) {
+			return false
+		}
+		for _, c := range n.Content {
+			if !depth(c, d+1) {
+				return false
+			}
+		}
+		return true
+	}
+	acyclic := depth(doc, 0)
+	verifAssert(acyclic, "C11/decoded-document-contains-itself (the operators that follow aliases recurse without end)")
+	if !acyclic {
+		return
+	}
+	ops := []string{".a.x", "explode(.)", "[..] | length", ".a | keys", ".a[]", "to_yaml", ".a | length", ".b.x", "to_props"}
+	_, _ = vEval(vParse(ops[verifChoice("op", len(ops))]), doc)
+	verifCover("C11/self-reference/end")
+}
